@@ -3,6 +3,7 @@ package gabi
 import (
 	"crypto/sha256"
 	"crypto/subtle"
+	"slices"
 
 	"github.com/fxamacker/cbor"
 	"github.com/go-errors/errors"
@@ -166,6 +167,24 @@ func KeyshareResponse[T comparable](
 		responseRequest.Context = bigOne
 	}
 
+	// Check that h_W sent in the commitment request equals the hash over the challenge input, before
+	// doing anything else with that input.
+	recalculatedHash, err := keyshareUserCommitmentsHash(responseRequest.UserChallengeInput)
+	if err != nil {
+		return nil, err
+	}
+	if subtle.ConstantTimeCompare(recalculatedHash, commRequest.HashedUserCommitments) != 1 {
+		return nil, errors.New("incorrect commitment hash sent in commitment request")
+	}
+	if responseRequest.Nonce == nil || responseRequest.UserResponse == nil {
+		return nil, errors.New("incomplete response request")
+	}
+	for i, data := range responseRequest.UserChallengeInput {
+		if data.Value == nil || data.Commitment == nil || slices.Contains(data.OtherCommitments, nil) {
+			return nil, errors.Errorf("incomplete element %d of challenge input", i)
+		}
+	}
+
 	// Assemble the input for the computation of h_W
 	challengeContribs := make([]*big.Int, 0, len(responseRequest.UserChallengeInput)*2)
 	for _, data := range responseRequest.UserChallengeInput {
@@ -180,15 +199,6 @@ func KeyshareResponse[T comparable](
 		totalW.Mul(data.Commitment, new(big.Int).Exp(pk.R[0], randomizer, pk.N)).Mod(totalW, pk.N)
 		challengeContribs = append(challengeContribs, data.Value, totalW)
 		challengeContribs = append(challengeContribs, data.OtherCommitments...)
-	}
-
-	// Check that h_W sent in the commitment request equals the hash over the expected values
-	recalculatedHash, err := keyshareUserCommitmentsHash(responseRequest.UserChallengeInput)
-	if err != nil {
-		return nil, err
-	}
-	if subtle.ConstantTimeCompare(recalculatedHash, commRequest.HashedUserCommitments) != 1 {
-		return nil, errors.New("incorrect commitment hash sent in commitment request")
 	}
 
 	challenge := createChallenge(responseRequest.Context, responseRequest.Nonce, challengeContribs, responseRequest.IsSignatureSession)
